@@ -68,7 +68,10 @@ package varmq
 //@   ensures [signals]  $signals(q.externalBaseQueue.w) - old($signals(q.externalBaseQueue.w)) == $enq(q.internalQueue) - old($enq(q.internalQueue))
 //@   ensures [len]      $lenOf(q.internalQueue) - old($lenOf(q.internalQueue)) == $enq(q.internalQueue) - old($enq(q.internalQueue))
 //@   ensures [handle]   result == $mk(groupJob) && $fresh(groupJob)
+// every item gets a job configuration of its own: one id-generator call and one WithJobId application per item (never a shared or reused one)
+//@   ensures [own-config] $usercalls == old($usercalls) + 2 * len(items)
 //@   loop 1: invariant [range]  0 <= rangeindex + 1 && rangeindex + 1 <= len(items) && RI_Wgc(groupJob.wgc) && $fresh(groupJob) && $fresh(groupJob.wgc)
+//@   loop 1: invariant [own-config] $usercalls == old($usercalls) + 2 * (rangeindex + 1)
 //@   loop 1: invariant [count]  ($enq(q.internalQueue) - old($enq(q.internalQueue))) + (len(items) - groupJob.wgc.count) == rangeindex + 1
 //@                                && $enq(q.internalQueue) >= old($enq(q.internalQueue)) && groupJob.wgc.count <= len(items)
 //@   loop 1: invariant [effect] $signals(q.externalBaseQueue.w) - old($signals(q.externalBaseQueue.w)) == $enq(q.internalQueue) - old($enq(q.internalQueue))
@@ -107,8 +110,11 @@ package varmq
 //@   ensures [signals]  $signals(q.externalBaseQueue.w) - old($signals(q.externalBaseQueue.w)) == $enq(q.internalQueue) - old($enq(q.internalQueue))
 //@   ensures [len]      $lenOf(q.internalQueue) - old($lenOf(q.internalQueue)) == $enq(q.internalQueue) - old($enq(q.internalQueue))
 //@   ensures [handle]   result == $mk(groupJob) && $fresh(groupJob)
+// every item gets a job configuration of its own: one id-generator call and one WithJobId application per item (never a shared or reused one)
+//@   ensures [own-config] $usercalls == old($usercalls) + 2 * len(items)
 //@   ensures [stream]   len(items) > 0 ==> (groupJob.wgc.count >= 1 <==> $open(groupJob.errorJob.Response.ch))
 //@   loop 1: invariant [range]  0 <= rangeindex + 1 && rangeindex + 1 <= len(items) && RI_Wgc(groupJob.wgc) && $fresh(groupJob) && $fresh(groupJob.wgc)
+//@   loop 1: invariant [own-config] $usercalls == old($usercalls) + 2 * (rangeindex + 1)
 //@   loop 1: invariant [count]  ($enq(q.internalQueue) - old($enq(q.internalQueue))) + (len(items) - groupJob.wgc.count) == rangeindex + 1
 //@                                && $enq(q.internalQueue) >= old($enq(q.internalQueue)) && groupJob.wgc.count <= len(items)
 //@   loop 1: invariant [effect] $signals(q.externalBaseQueue.w) - old($signals(q.externalBaseQueue.w)) == $enq(q.internalQueue) - old($enq(q.internalQueue))
@@ -146,8 +152,11 @@ package varmq
 //@   ensures [signals]  $signals(q.externalBaseQueue.w) - old($signals(q.externalBaseQueue.w)) == $enq(q.internalQueue) - old($enq(q.internalQueue))
 //@   ensures [len]      $lenOf(q.internalQueue) - old($lenOf(q.internalQueue)) == $enq(q.internalQueue) - old($enq(q.internalQueue))
 //@   ensures [handle]   result == $mk(groupJob) && $fresh(groupJob)
+// every item gets a job configuration of its own: one id-generator call and one WithJobId application per item (never a shared or reused one)
+//@   ensures [own-config] $usercalls == old($usercalls) + 2 * len(items)
 //@   ensures [stream]   len(items) > 0 ==> (groupJob.wgc.count >= 1 <==> $open(groupJob.resultJob.Response.ch))
 //@   loop 1: invariant [range]  0 <= rangeindex + 1 && rangeindex + 1 <= len(items) && RI_Wgc(groupJob.wgc) && $fresh(groupJob) && $fresh(groupJob.wgc)
+//@   loop 1: invariant [own-config] $usercalls == old($usercalls) + 2 * (rangeindex + 1)
 //@   loop 1: invariant [count]  ($enq(q.internalQueue) - old($enq(q.internalQueue))) + (len(items) - groupJob.wgc.count) == rangeindex + 1
 //@                                && $enq(q.internalQueue) >= old($enq(q.internalQueue)) && groupJob.wgc.count <= len(items)
 //@   loop 1: invariant [effect] $signals(q.externalBaseQueue.w) - old($signals(q.externalBaseQueue.w)) == $enq(q.internalQueue) - old($enq(q.internalQueue))
@@ -185,7 +194,10 @@ package varmq
 //@   ensures [signals]  $signals(q.externalBaseQueue.w) - old($signals(q.externalBaseQueue.w)) == $enq(q.internalQueue) - old($enq(q.internalQueue))
 //@   ensures [len]      $lenOf(q.internalQueue) - old($lenOf(q.internalQueue)) == $enq(q.internalQueue) - old($enq(q.internalQueue))
 //@   ensures [handle]   result == $mk(groupJob) && $fresh(groupJob)
+// every item gets a job configuration of its own: one id-generator call and one WithJobId application per item (never a shared or reused one)
+//@   ensures [own-config] $usercalls == old($usercalls) + 2 * len(items)
 //@   loop 1: invariant [range]  0 <= rangeindex + 1 && rangeindex + 1 <= len(items) && RI_Wgc(groupJob.wgc) && $fresh(groupJob) && $fresh(groupJob.wgc)
+//@   loop 1: invariant [own-config] $usercalls == old($usercalls) + 2 * (rangeindex + 1)
 //@   loop 1: invariant [count]  ($enq(q.internalQueue) - old($enq(q.internalQueue))) + (len(items) - groupJob.wgc.count) == rangeindex + 1
 //@                                && $enq(q.internalQueue) >= old($enq(q.internalQueue)) && groupJob.wgc.count <= len(items)
 //@   loop 1: invariant [effect] $signals(q.externalBaseQueue.w) - old($signals(q.externalBaseQueue.w)) == $enq(q.internalQueue) - old($enq(q.internalQueue))
@@ -222,8 +234,11 @@ package varmq
 //@   ensures [signals]  $signals(q.externalBaseQueue.w) - old($signals(q.externalBaseQueue.w)) == $enq(q.internalQueue) - old($enq(q.internalQueue))
 //@   ensures [len]      $lenOf(q.internalQueue) - old($lenOf(q.internalQueue)) == $enq(q.internalQueue) - old($enq(q.internalQueue))
 //@   ensures [handle]   result == $mk(groupJob) && $fresh(groupJob)
+// every item gets a job configuration of its own: one id-generator call and one WithJobId application per item (never a shared or reused one)
+//@   ensures [own-config] $usercalls == old($usercalls) + 2 * len(items)
 //@   ensures [stream]   len(items) > 0 ==> (groupJob.wgc.count >= 1 <==> $open(groupJob.errorJob.Response.ch))
 //@   loop 1: invariant [range]  0 <= rangeindex + 1 && rangeindex + 1 <= len(items) && RI_Wgc(groupJob.wgc) && $fresh(groupJob) && $fresh(groupJob.wgc)
+//@   loop 1: invariant [own-config] $usercalls == old($usercalls) + 2 * (rangeindex + 1)
 //@   loop 1: invariant [count]  ($enq(q.internalQueue) - old($enq(q.internalQueue))) + (len(items) - groupJob.wgc.count) == rangeindex + 1
 //@                                && $enq(q.internalQueue) >= old($enq(q.internalQueue)) && groupJob.wgc.count <= len(items)
 //@   loop 1: invariant [effect] $signals(q.externalBaseQueue.w) - old($signals(q.externalBaseQueue.w)) == $enq(q.internalQueue) - old($enq(q.internalQueue))
@@ -261,8 +276,11 @@ package varmq
 //@   ensures [signals]  $signals(q.externalBaseQueue.w) - old($signals(q.externalBaseQueue.w)) == $enq(q.internalQueue) - old($enq(q.internalQueue))
 //@   ensures [len]      $lenOf(q.internalQueue) - old($lenOf(q.internalQueue)) == $enq(q.internalQueue) - old($enq(q.internalQueue))
 //@   ensures [handle]   result == $mk(groupJob) && $fresh(groupJob)
+// every item gets a job configuration of its own: one id-generator call and one WithJobId application per item (never a shared or reused one)
+//@   ensures [own-config] $usercalls == old($usercalls) + 2 * len(items)
 //@   ensures [stream]   len(items) > 0 ==> (groupJob.wgc.count >= 1 <==> $open(groupJob.resultJob.Response.ch))
 //@   loop 1: invariant [range]  0 <= rangeindex + 1 && rangeindex + 1 <= len(items) && RI_Wgc(groupJob.wgc) && $fresh(groupJob) && $fresh(groupJob.wgc)
+//@   loop 1: invariant [own-config] $usercalls == old($usercalls) + 2 * (rangeindex + 1)
 //@   loop 1: invariant [count]  ($enq(q.internalQueue) - old($enq(q.internalQueue))) + (len(items) - groupJob.wgc.count) == rangeindex + 1
 //@                                && $enq(q.internalQueue) >= old($enq(q.internalQueue)) && groupJob.wgc.count <= len(items)
 //@   loop 1: invariant [effect] $signals(q.externalBaseQueue.w) - old($signals(q.externalBaseQueue.w)) == $enq(q.internalQueue) - old($enq(q.internalQueue))
